@@ -333,7 +333,11 @@ fn run_printer(prop: &str, tier: &str, seed: u64, outdir: &str, only: Option<(&'
                 let f = std::fs::File::create(format!("{}/cases.{}.txt", outdir, ti)).unwrap();
                 let mut w = std::io::BufWriter::new(f);
                 for c in part {
-                    let Some((src, cfg, feat)) = make_case(c, fx) else { continue };
+                    let Some((src, mut cfg, feat)) = make_case(c, fx) else { continue };
+                    if matches!(prop, "C06" | "C07" | "C08" | "C09" | "C12") {
+                        // import reordering legitimately moves words; it is covered by C01/C03/C10/C19
+                        cfg.reorder = false;
+                    }
                     let source = Source::detached(src.clone());
                     if source.root().erroneous() {
                         st.erroneous += 1;
